@@ -467,7 +467,13 @@ class Run:
         }
         self.cov["known_findings_hit"] = {k: v[1] for k, v in self.known_hits.items()}
         self.cov["tree_hash"] = th()
-        with open(os.path.join(VERIF, "evidence", self.prop + ".json"), "w") as f:
+        # /verif/evidence describes runs against /repo only; a run against a scratch tree (VERIF_REPO, used to
+        # try the checks on modified copies of the library) leaves it alone and writes under build/ instead
+        evdir = os.path.join(VERIF, "evidence")
+        if os.path.realpath(REPO) != os.path.realpath("/repo"):
+            evdir = os.path.join(BUILD, "evidence_scratch")
+            os.makedirs(evdir, exist_ok=True)
+        with open(os.path.join(evdir, self.prop + ".json"), "w") as f:
             json.dump(ev, f, indent=1, default=str)
         for k, (fd, n, what) in sorted(self.known_hits.items()):
             print("KNOWN-FINDING: property=%s %s [%s] (%d hit%s; e.g. %s)" % (
